@@ -563,7 +563,7 @@ META = {
                         'end-to-end', 'reverse-entries'],
     'bounds': {'quick': 'FlowDemux 1-3 outputs; FIBDemux 2 outputs, FIB over <=2 flows with symbolic ports (incl. out of range), 4 flow ids; '
                         'switches 2 ports, 2 packets; hubs 1-4 endpoints; splitters N<=4; FatTree k=2 (all 2-flow sets, end to end) and '
-                        'k=4 (every single flow: all ordered host pairs x all shortest paths), k=6 (first host to every destination over every path)',
+                        'k=4 (every single flow: all ordered host pairs x all shortest paths), k=6 (first host to every destination over every path); splitter copies with own dict fields, taken before hand-over; one output unplugged; demux table changed in place; two demuxes side by side; FatTree k=6 from the first host',
                'thorough': 'switch workloads of 3; FatTree k=8 from the first host, k=6 single flows and k=4 pairs of flows up to a path budget'},
     'assumptions': ['flow ids and port numbers are non-negative', 'the fat-tree sampler is replaced by a finite-domain stub: the '
                     'solver enumerates its outcomes (this axis is enumeration, not symbolic reasoning)'],
